@@ -100,8 +100,10 @@ func (c *Ctx) Floor(name string, min int) {
 func (c *Ctx) Undecide(format string, a ...interface{}) {
 	c.Undecided = append(c.Undecided, fmt.Sprintf(format, a...))
 }
-func (c *Ctx) Assume(s string)            { c.Assumptions = append(c.Assumptions, s) }
-func (c *Ctx) Explainf(f string, a ...interface{}) { c.Explain = append(c.Explain, fmt.Sprintf(f, a...)) }
+func (c *Ctx) Assume(s string) { c.Assumptions = append(c.Assumptions, s) }
+func (c *Ctx) Explainf(f string, a ...interface{}) {
+	c.Explain = append(c.Explain, fmt.Sprintf(f, a...))
+}
 func (c *Ctx) Sample(v interface{}) {
 	if len(c.Samples) < 12 {
 		c.Samples = append(c.Samples, v)
